@@ -254,25 +254,25 @@ for k in CHECKS:
 # ---- extensions made after the seeding rounds 3 and 4 (appended to the descriptions above)
 EXTRA = {
     'C01': 'Additionally the shared posterior routine on a log-pdf alphabet (-1e5..1e5) with all activity masks and zero weights, predict(return_quadratic_form=True), frames whose norm is within 1e-6 of one, embeddings 1e7 spreads from the origin, and memory layouts. The built-in spatial/spectral alignment routine on all small two- and three-bin tables, judged per bin.',
-    'C02': 'Additionally a large data set (2400 observations per slice) with one observation 60 spreads away, for the three Gaussian covariance types. Long recordings (22 384 frames, 20 000 diffuse frames with 21 channels), fixed_covariance, and starts that do not sum to one over the classes. Gaussian features with 16 and 21 dimensions.',
-    'C03': 'Additionally the posterior returned by fit_predict, perturbation 1e-9 (one-hot starts) and single-precision data for the vMF models. 40 003 observations, CBMMTrainer(max_concentration=500) and integer 0/1 starts. A start in which only the last class is blurred; directional models with 40 003 observations.',
+    'C02': 'Additionally a large data set (2400 observations per slice) with one observation 60 spreads away, for the three Gaussian covariance types. Long recordings (22 384 frames, 20 000 diffuse frames with 21 channels), fixed_covariance, and starts that do not sum to one over the classes. Gaussian features with 16 and 21 dimensions. Tight classes of unequal spread 0.15 rad apart (four draws).',
+    'C03': 'Additionally the posterior returned by fit_predict, perturbation 1e-9 (one-hot starts) and single-precision data for the vMF models. 40 003 observations, CBMMTrainer(max_concentration=500) and integer 0/1 starts. A start in which only the last class is blurred; directional models with 40 003 observations. 40 003 frames ordered by class.',
     'C04': 'Additionally observations that already have unit norm with gain moduli within 1e-5 of one, and rescaled tensors handed over as Fortran-ordered / axis-permuted / strided / negatively strided views; the same model applied to rescaled data is judged at rounding level. 4 097..9 001 frames. The saliency argument of the single-distribution trainers.',
-    'C05': 'Additionally nearly tied classes (uniform start with 1e-5 jitter), one trainer object serving all relabelled fits, and the built-in spatial/spectral alignment under every relabelling of every 3-value table (K<=3). Five classes in the built-in alignment, one-dimensional Gaussian observations and 22 frequency bins. A class with a share of 1e-4; 120-iteration runs on overlapping clusters (100 data sets for vMFMM).',
-    'C06': 'Additionally stacks of hand-built parameter sets with one extreme or unusable slice, and stacks of tightly concentrated slices. Boolean saliency that differs per slice, a singleton start together with a per-slice saliency, D = 8. Stacks of nearly noise-free point sources with another noise level per slice.',
+    'C05': 'Additionally nearly tied classes (uniform start with 1e-5 jitter), one trainer object serving all relabelled fits, and the built-in spatial/spectral alignment under every relabelling of every 3-value table (K<=3). Five classes in the built-in alignment, one-dimensional Gaussian observations and 22 frequency bins. A class with a share of 1e-4; 120-iteration runs on overlapping clusters (100 data sets for vMFMM). 22 000 observations without leading axes.',
+    'C06': 'Additionally stacks of hand-built parameter sets with one extreme or unusable slice, and stacks of tightly concentrated slices. Boolean saliency that differs per slice, a singleton start together with a per-slice saliency, D = 8. Stacks of nearly noise-free point sources with another noise level per slice. Slices with graded spreads (concentrations from 50 to beyond the upper bound).',
     'C07': 'Additionally Fortran-ordered / axis-permuted parameter stacks, cACG eigenvalues of overall scale 1e-15..1e12, Bingham spectra with one eigenvalue of -3.7e19, and parameters re-assigned on an evaluated object. Integer / float32 means, vMF in D = 1, 2 051 evaluation points, Gaussian tolerance 1e-14*cond.',
     'C08': 'Additionally the integration models with their built-in alignment against a reference E-step, with an active clip of 0.05. fit(initialization=<model>) continuation, zero observations that carry weight, a saturated scene, 70 001 observations.',
     'C09': 'Additionally trainers with different concentration bounds used one after the other (all ordered pairs and triples) and Gaussian data 1e4..1e8 spreads from the origin with a symmetry predicate. Every equivalent form of weight_constant_axis, Bingham bounds in D = 4 and 5, the eigenvalue_floor option.',
     'C10': 'Additionally transposed views as inputs, float32 masks whose sum is far below the float32 epsilon, and an explicit source_dim with masks that have no source axis. Calls that leave out arguments equal to their defaults, condition_covariance on non-C-ordered matrices. Masks whose sum over time is 1 + 3e-6.',
     'C11': 'Additionally noise PSDs stored with a real dtype and other memory layouts of the inputs. (3,F,D,D) stacks, channel_selection_vector, 17/24/31 bins and target powers 9..12 orders below the noise with the automatic reference channel.',
-    'C12': "Additionally real-dtype, exactly diagonal and axis-aligned rank-one target PSDs. Exactly diagonal noise, leading axes transposed in memory, get_bf_vector('gev+ban', use_eig=True) against its composition. Dominant targets that are not rank one; stacks of 2 051..4 100 matrices.",
-    'C13': "Additionally single-precision PSDs with zero bins. distortion_weight='frequency_dependent', +ban through the wrapper on bins without noise, K vectors on one mixture, bins 15 orders of magnitude apart. A 50 / 70 dB interferer in the noise PSD of one bin must leave the other bins unchanged.",
-    'C14': 'Additionally built-in alignment tables with log-likelihoods 800..2000 apart and nearly tied tables with a negative criterion, a source-activity mask together with the inline aligner, and masks in other memory layouts. Tables with -inf entries, aligner(mask, ref) against calculate_mapping + apply_mapping, mappings stored as int8..uint64. Tables with one decided class and two classes within a nat.',
+    'C12': "Additionally real-dtype, exactly diagonal and axis-aligned rank-one target PSDs. Exactly diagonal noise, leading axes transposed in memory, get_bf_vector('gev+ban', use_eig=True) against its composition. Dominant targets that are not rank one; stacks of 2 051..4 100 matrices. Targets 50..60 dB above the noise.",
+    'C13': "Additionally single-precision PSDs with zero bins. distortion_weight='frequency_dependent', +ban through the wrapper on bins without noise, K vectors on one mixture, bins 15 orders of magnitude apart. A 50 / 70 dB interferer in the noise PSD of one bin must leave the other bins unchanged. A bin 80 dB below the others must get the result it gets alone; one vector stack on a batch of mixtures; mixtures beyond 2**20 samples.",
+    'C14': 'Additionally built-in alignment tables with log-likelihoods 800..2000 apart and nearly tied tables with a negative criterion, a source-activity mask together with the inline aligner, and masks in other memory layouts. Tables with -inf entries, aligner(mask, ref) against calculate_mapping + apply_mapping, mappings stored as int8..uint64. Tables with one decided class and two classes within a nat. Tables of 4 101 frames whose last frames decide.',
     'C15': 'Additionally score-matrix stacks with 1..3 leading axes, magnitudes 1e8 (float32) / 1e17 (float64), and one aligner object reused for a reference buffer refilled in place. Antipodal signed references, returned mappings overwritten by the caller between calls. Classes that differ only in the tail of 4 097..9 000 frames; classes 46 dB below the dominant one.',
     'C16': 'Additionally int8 / int32 / uint8 masks and masks scaled by 2**60, 2**-60 (double) and 2**30 (single): the mapping must be bit-identical.',
     'C17': 'Additionally sensor noise 80 and 120 dB below the sources; the scene is built on the reference DHTV plan and the implementation plan is compared with it. use_eig=True through the pipeline, fit_predict 40 dB lower, a fresh C-contiguous posterior array. channel_selection_vector / explicit ref_channel in the pipeline.',
     'C18': 'Additionally transposed views as inputs and tuples of quantiles with non-default axes. complex64 inputs and exact Gaussian-integer powers.',
-    'C19': 'Additionally inputs in other memory layouts. Sources 120 dB apart, noise longer than the target, singleton leading axes, set_snr requests 1e-3..1e-7 dB apart on one buffer, earlier dict results re-read after later calls. Outputs whose captured powers are 4e-6 apart relatively.',
-    'C20': 'Additionally call_sequences: for every entry point X and every other entry point Y (all ordered pairs in the thorough tier) the result of X after Y equals the result of X in a pristine process. One identical call repeated 16 times under heap traffic with a bit-exactness expectation; read-only arguments for every entry. Noise PSDs of condition 1e9..1e11 as purity entries; a second utterance handed over through the same refilled buffer in the trainer histories.',
+    'C19': 'Additionally inputs in other memory layouts. Sources 120 dB apart, noise longer than the target, singleton leading axes, set_snr requests 1e-3..1e-7 dB apart on one buffer, earlier dict results re-read after later calls. Outputs whose captured powers are 4e-6 apart relatively. Signals of 1 500 and 2 501 samples in the SNR round trip.',
+    'C20': 'Additionally call_sequences: for every entry point X and every other entry point Y (all ordered pairs in the thorough tier) the result of X after Y equals the result of X in a pristine process. One identical call repeated 16 times under heap traffic with a bit-exactness expectation; read-only arguments for every entry. Noise PSDs of condition 1e9..1e11 as purity entries; a second utterance handed over through the same refilled buffer in the trainer histories. Starts that are not normalised over the classes and masks with unit-norm rows as purity entries.',
 }
 for _k, _v in EXTRA.items():
     CHECKS[_k]['level_claimed']['text'] += ' ' + _v
